@@ -135,6 +135,7 @@ type extFn struct {
 var externals = map[string]*extFn{
 	"strconv.ParseInt":      {"ext_ParseInt", "String → Int → Int → Int × Option String", &gty{k: "tuple", items: []*gty{tInt, tError}}},
 	"nut11.ParsePublicKey":  {"ext_ParsePublicKey", "String → PublicKey × Option String", &gty{k: "tuple", items: []*gty{{k: "opaque", name: "PublicKey"}, tError}}},
+	"nut10.DeserializeSecret": {"ext_DeserializeSecret", "String → WellKnownSecret × Option String", nil},
 	"nut11.ParseSignature":  {"ext_ParseSignature", "String → Signature × Option String", &gty{k: "tuple", items: []*gty{{k: "opaque", name: "Signature"}, tError}}},
 	// method of an opaque foreign value: the receiver is the first argument
 	"Signature.Verify": {"ext_Verify", "Signature → List UInt8 → PublicKey → Bool", tBool},
@@ -697,6 +698,9 @@ func (c *fctx) binary(s *scope, x *ast.BinaryExpr, hint *gty) (string, *gty) {
 
 func (c *fctx) external(s *scope, key string, x *ast.CallExpr) (string, *gty) {
 	ef := externals[key]
+	if key == "nut10.DeserializeSecret" && ef.result == nil {
+		ef.result = &gty{k: "tuple", items: []*gty{c.tr.named("nut10", "WellKnownSecret"), tError}}
+	}
 	seen := false
 	for _, u := range c.tr.extUsed {
 		if u == key {
